@@ -300,6 +300,36 @@ pub fn run(ctx: &Ctx) -> Report {
     }
     stm.samples.truncate(1);
     total.merge(stm);
+    // two formatted prints in one expression: a supported format, and the same format followed by \\c
+    // and a directive the target cannot express (a cache keyed by the printed part must not let the
+    // second one through), in both orders, under every operator, to stdout and to files
+    let mut stf = Stats::new();
+    for printed in [vec![FEl::F(Fld::Name), FEl::E(Esc::Newline)], vec![FEl::Lit("x".into())], vec![FEl::F(Fld::Bytes), FEl::Lit(" ".into()), FEl::F(Fld::NameNoStart)], vec![]] {
+        for bad in crate::gen::unsupported_fields() {
+            for tail in [vec![FEl::E(Esc::Clear), FEl::F(bad.clone())], vec![FEl::E(Esc::Clear), FEl::Lit("y".into()), FEl::F(bad.clone()), FEl::E(Esc::Newline)], vec![FEl::F(bad.clone())]] {
+                let mut full = printed.clone();
+                full.extend(tail);
+                if printed.is_empty() && !matches!(full.first(), Some(FEl::E(Esc::Clear))) {
+                    continue;
+                }
+                let goods = [E::A(Act::Printf(printed.clone())), E::A(Act::FPrintf("o".into(), printed.clone()))];
+                let bads = [E::A(Act::Printf(full.clone())), E::A(Act::FPrintf("o".into(), full.clone())), E::A(Act::FPrintf("p".into(), full.clone()))];
+                for g in &goods {
+                    if printed.is_empty() {
+                        continue;
+                    }
+                    for b in &bads {
+                        for tr in [E::and(g.clone(), b.clone()), E::or(g.clone(), b.clone()), E::list(b.clone(), g.clone()), E::and(E::and(g.clone(), g.clone()), b.clone()), E::and(E::T(Tst::True), E::list(g.clone(), E::not(b.clone())))] {
+                            let v = judge(&tr);
+                            stf.record(&v, stable_hash(&tr), true, || case_json(&tr));
+                        }
+                    }
+                }
+            }
+        }
+    }
+    stf.samples.truncate(1);
+    total.merge(stf);
     // a pair of tests that no file can satisfy together (or that every file satisfies), then a
     // construct the target cannot express: it is refused all the same - a shortcut for dead
     // branches must not swallow it
